@@ -60,6 +60,9 @@ static void verify_binding(const char *what, void *entry, void *want, const char
 static uint32_t gcm_len_for(rng_t *r, uint64_t c, int thorough)
 {
         if (c <= 1100) return (uint32_t) c;
+        /* every block count from 230 to 329 with tails 0, 1 and 15: with a 12-byte IV the low counter byte is (block index + 2) mod 256, so each unrolled
+         * counter-increment site (8/16/48 blocks wide, one macro instance per residual block count) meets its low-byte wrap here, not only when a random length happens to fit */
+        if (c <= 1400) { static const uint32_t t[3] = { 0, 1, 15 }; return 16 * (230 + (uint32_t) (c - 1101) / 3) + t[(c - 1101) % 3]; }
         switch (rng_below(r, 10)) {
         case 0: return rng_below(r, 65536);
         case 1: return 16 * rng_below(r, 600) + rng_below(r, 3) - 1 + 1;
